@@ -223,3 +223,23 @@ Example C13_example_curve :
   (recover_sel (zq q) [:: 0; 1; 2]%N ids shares = (55 * h) mod q)%ZZ /\
   (recover_sel (zq q) [:: 4; 2; 3]%N ids shares = (55 * h) mod q)%ZZ.
 Proof. by vm_compute. Qed.
+
+(* Non-vacuity of the selection theorem: 5 entries, k = 3, concrete map orders and random numbers. *)
+Example C13_example_selection :
+  let pi1 := [:: 2; 0; 4; 1; 3]%N in let pi2 := [:: 1; 2; 0]%N in let js := [:: 3; 1; 4]%N in
+  let sel := code_selection 5 3 pi1 js pi2 in
+  [/\ is_perm 5 pi1, is_perm 3 pi2, all (fun x => x < 5)%N (take 3 js), sel = [:: 1; 3; 0]%N & uniq sel].
+Proof. by []. Qed.
+
+(* Non-vacuity of the member-side key generation: Z mod 7, two dealers (ids 1, 2; polynomials 3+x and
+   5+2x), member id 3, pieces arriving as dealer 1, dealer 1 again, dealer 0: return codes 0, -1, 1 and
+   the aggregated key (3+3) + (5+6) = 3 mod 7, group key exponent 3+5 = 1 mod 7. *)
+Example C13_example_node :
+  let o := zq 7 in
+  let ds := [:: (1, [:: 3; 1]); (2, [:: 5; 2])]%ZZ in
+  let h nd d := let '(id, sh, pub) := piece_for o 3%ZZ (nth (0, [::])%ZZ ds d) in
+                node_handle o Z.eqb (fun z => (z mod 7 =? 0)%ZZ) [:: 0; 1]%N [:: 1; 0]%N nd id sh pub in
+  let s1 := h (node_new o 2) 1%N in let s2 := h s1.1 1%N in let s3 := h s2.1 0%N in
+  (s1.2, s2.2, s3.2) = (0, -1, 1)%ZZ /\ n_done s3.1 /\ n_sk s3.1 = 3%ZZ /\ n_gpk s3.1 = 1%ZZ /\
+  member_key o (map snd ds) 3%ZZ = 3%ZZ /\ group_secret o (map snd ds) = 1%ZZ.
+Proof. by vm_compute. Qed.
